@@ -28,7 +28,7 @@ func init() {
 			"ebpf.MACToUint64", "ebpf.IPToUint32", "ebpf.MakeCircuitIDKey",
 			"ebpf.Loader.AddVLANSubscriber", "ebpf.Loader.RemoveVLANSubscriber", "ebpf.Loader.GetVLANSubscriber",
 			"antispoof.macToUint64", "antispoof.Manager.AddBinding", "antispoof.Manager.AddBindingV6", "antispoof.Manager.RemoveBinding", "antispoof.Manager.AddAllowedRange",
-			"qos.ipToKey", "nat.ipToKey",
+			"qos.ipToKey", "nat.ipToKey", "ebpf.HashCircuitID",
 		},
 		Trusted: []string{
 			"clang's DWARF member metadata (offset, size) for the C declarations; go/types for the Go declarations",
@@ -36,7 +36,7 @@ func init() {
 			"little-endian host (the kernel programs are verified as x86_64 IR)",
 		},
 		Undecided: []string{
-			"NOT DECIDED: ebpf.HashCircuitID against the FNV-1a loop of bpf/dhcp_fastpath.c (two loops over the same recurrence; no shared recursive specification is proved on the C side)",
+			"HALF DECIDED: ebpf.HashCircuitID is proved to be the 64-bit FNV-1a recurrence over all bytes of its argument (fnv1a64); that the loop of bpf/dhcp_fastpath.c computes the same recurrence is not proved on the C side",
 			"NOT DECIDED: values the kernel writes and the control plane only reads through ring buffers / perf events (nat_log_rb, spoof_events carry no typed value in the map declaration); maps no Go code touches",
 			"the meaning of each field beyond offset and width (units, flag bits), except the IPv4 / MAC words covered by the derived-key contracts",
 		},
